@@ -102,7 +102,9 @@ func (f *AppArmorProfileFile) resolveValues(input string) ([]string, error) {
 				if strings.Contains(v, VARIABLE.Tok()+varname+"}") {
 					return nil, fmt.Errorf("recursive variable found in: %s", varname)
 				}
-				newValues := strings.ReplaceAll(input, variable, v)
+				// Only the first reference: the same variable referenced twice
+				// expands to all the combinations of its values
+				newValues := strings.Replace(input, variable, v, 1)
 				newValues = strings.ReplaceAll(newValues, "//", "/")
 				res, err := f.resolveValues(newValues)
 				if err != nil {
